@@ -400,7 +400,58 @@ def run(res, tier, seed, replay_script=None):
               "clearref g", "refsurp g %s %s %d" % (vlib.hexf(2 * tol), crit, out), "dump g meta nidx"]
         meta_cases[cid] = (spec, ls)
         lines += ls
+    # level limits HELD by the grid (given to make or to an earlier refinement call) bind a later surplus refinement that passes none:
+    # every proposed point of every strategy stays within them (Local Polynomial and Wavelet grids, two rounds)
+    held_cases = {}
+    if not replay_script:
+        import C08 as c08mod
+        rh = vlib.rng(seed, PID + "-held-limits")
+        hi = 0
+        for fam, rule, order in [("wavelet", "", 1), ("wavelet", "", 3), ("localp", "localp", 1), ("localp", "semi-localp", 2), ("localp", "localp-boundary", 1),
+                                 ("localp", "localp-zero", 2)]:
+            for crit in gl.REFINE:
+                dd = 2 + (hi % 2)
+                ll = [rh.choice([0, 1, 2, 3]) for _ in range(dd)]
+                if all(l == 0 for l in ll):
+                    ll[rh.randrange(dd)] = 2
+                cid = "wl%d" % hi
+                hi += 1
+                spec = {"family": fam, "dims": dd, "outs": 1, "depth": 1 if fam == "wavelet" else 2, "order": order, "rule": rule, "ll": ll}
+                how = hi % 3     # limits given to make | to a first refinement call | to make and replaced by a refinement call
+                mk = gl.make_cmd(dict(spec, ll=[]) if how == 1 else spec)
+                # limits given after make must not be tighter than the points the grid already holds (their children in OTHER directions inherit the coordinate)
+                ll2 = [max(l, 1) for l in ll] if how == 2 else [max(l, spec["depth"]) for l in ll] if how == 1 else ll
+                ls = ["case " + cid, mk, "load g smooth"]
+                if how != 0:
+                    ls += ["refsurp g 0x0p+0 %s -1 ll: %s" % (crit, " ".join(str(l) for l in ll2)), "dump g meta nidx", "load g smooth"]
+                ls += ["refsurp g 0x0p+0 %s -1" % crit, "dump g meta nidx", "load g hash", "refsurp g 0x1p-20 %s 0" % crit, "dump g meta nidx"]
+                held_cases[cid] = (spec, ll2, ls)
+                lines += ls
     rc, cases, so, se = gl.run_scripts(gdrv, lines, wd, "hist", timeout=1500)
+    for cid, (spec, ll, ls) in held_cases.items():
+        steps = cases.pop(cid, [])
+        for st in steps:
+            if st.exc is not None and st.exc[0] != "hang" and not st.cmd.startswith("dump"):
+                res.violation("unexpected-exception", "%s raised %s [%s]" % (st.cmd, st.exc, ls[1]), {"kind": "impl-counterexample", "script": ls})
+                break
+            if st.cmd.startswith("dump") and "nidx" in st.obs:
+                nidx, dd = st.obs["nidx"], spec["dims"]
+                stats_held = res.coverage.setdefault("held_limit_refinements", {"dumps": 0, "needed_points_checked": 0})
+                stats_held["dumps"] += 1
+                bad = None
+                for i in range(len(nidx) // dd):
+                    pt = nidx[i * dd:(i + 1) * dd]
+                    stats_held["needed_points_checked"] += 1
+                    for j in range(dd):
+                        if c08mod.level_of(spec, None, pt[j]) > ll[j]:
+                            bad = (pt, j)
+                            break
+                    if bad:
+                        break
+                if bad:
+                    res.violation("needed-above-held-limits:" + spec["family"], "surplus refinement without new limits proposes point %s whose level in dimension %d exceeds the "
+                                  "limits %s held by the grid [%s]" % (bad[0], bad[1], ll, " ; ".join(ls[1:])), {"kind": "impl-counterexample", "script": ls})
+                    break
     for cid, (spec, ls) in meta_cases.items():
         steps = cases.pop(cid, [])
         dumps = [s for s in steps if s.cmd.startswith("dump") and "nidx" in s.obs]
